@@ -6,7 +6,9 @@ import "sync"
 func HarnessRaceEvent() {
 	e := New[int]()
 	var mu sync.RWMutex // the harness's own scheduling points
-	unsub := e.Subscribe(func(int) {})
+	unsub := e.Subscribe(func(int) {}) // a non-last listener: its removal shifts the tail in place
+	e.Subscribe(func(int) {})
+	e.Subscribe(func(int) {})
 	kind := symChoice(3)
 	vRaceBegin()
 	vInterpose(func() {
